@@ -109,7 +109,7 @@ def run_unit(repo, unit, contracts_dir, workdir, rlimit=None, extra_args=(), see
     allow_path = os.path.join(contracts_dir, unit + '.trusted')
     allow = []
     if os.path.exists(allow_path):
-        allow = [l.rstrip('\n') for l in open(allow_path) if l.strip() and not l.startswith('#')]
+        allow = [l.rstrip('\n') for l in open(allow_path) if l.strip() and not l.startswith('# ')]
     hits = scan_trusted(asm.text())
     res['trusted'] = [h[1] for h in hits]
     allowed_keys = set(a.split(' ## ')[0].strip() for a in allow)
